@@ -66,6 +66,8 @@ def b_answers(job):
         body = G.diamond_history(g, rng, queries=queries)
     elif job.get("mode") == "guarded":
         body = G.guarded_history(g, rng, queries=queries)
+    elif job.get("mode") == "eqsys":
+        body = G.eqsys_history(g, rng, queries=queries)
     elif job.get("mode") == "cnf":
         body = cnf_history(g, rng, n_atoms=job.get("n_atoms", 8), levels=job.get("levels", 4))
         if queries:
@@ -112,6 +114,8 @@ def b_models(job):
         body = G.interface_history(g, rng, queries=queries)
     elif job.get("mode") == "sums":
         body = G.sums_history(g, rng, queries=[q for q in queries if q["c"] != "get-assignment"])
+    elif job.get("mode") == "eqsys":
+        body = G.eqsys_history(g, rng, queries=[q for q in queries if q["c"] != "get-assignment"])
     else:
         body = G.random_history(g, rng, n_assert=job.get("n_assert", 4), p_named=0.6, queries=queries, fdepth=2)
     cfg = job.get("cfg", "c0")
@@ -265,6 +269,8 @@ def b_configs(job):
         body = G.diamond_history(g, rng)
     elif job.get("mode") == "guarded":
         body = G.guarded_history(g, rng)
+    elif job.get("mode") == "eqsys":
+        body = G.eqsys_history(g, rng)
     elif job.get("mode") == "cnf":
         # clause sets over few, closely related atoms (small constants: equal and opposite bounds, zero-weight cycles)
         body = cnf_history(g, rng, n_atoms=job.get("n_atoms", 7), levels=job.get("levels", 4))
@@ -953,6 +959,23 @@ def b_outlogic(job):
         bad.append(tb.app(">=", [tb.app("+", [x, y]), c(rng.randint(-2, 4))]))
         bad.append(tb.app("=", [tb.app("*", [c(3), x]), tb.app("+", [y, c(1)])]))
         bad.append(tb.app("<", [tb.app("-", [x, y, z]), c(1)]))
+        if S != REAL:
+            # real-feasible, integer-infeasible: the conflict is spread over a <= / >= pair (and a difference atom)
+            k = rng.choice([1, 3, -1])
+            t1 = tb.app("-", [tb.app("*", [c(2), x]), tb.app("*", [c(2), y])])
+            bad.append(tb.app("and", [tb.app("<=", [t1, c(k)]), tb.app(">=", [t1, c(k)])]))
+            t2, r2 = tb.app("+", [x, y]), tb.app("*", [c(2), z])
+            bad.append(tb.app("and", [tb.app("<=", [t2, r2]), tb.app(">=", [t2, r2]),
+                                      tb.app("<=", [tb.app("-", [x, y]), c(1)]), tb.app(">=", [tb.app("-", [x, y]), c(1)])]))
+            t3, r3 = tb.app("*", [c(2), x]), tb.app("*", [c(3), y])
+            bad.append(tb.app("and", [tb.app("<=", [t3, r3]), tb.app(">=", [t3, r3]), tb.app(">=", [x, c(1)]), tb.app("<=", [x, c(2)])]))
+            if g.uf:
+                if "h" not in g.funs:
+                    g._declare("h", (S,), S)
+                hx, hy = tb.uf("h", [x], S), tb.uf("h", [y], S)
+                t4 = tb.app("+", [hx, hy])
+                bad.append(tb.app("and", [tb.app("<=", [t4, c(k)]), tb.app(">=", [t4, c(k)]),
+                                          tb.app("<=", [tb.app("-", [x, y]), c(0)]), tb.app(">=", [tb.app("-", [x, y]), c(0)])]))
     else:
         bad.append(tb.app("<=", [tb.app("*", [x, y]), c(2)]))
         bad.append(tb.app("=", [tb.app("*", [x, x]), c(4)]))
